@@ -1,6 +1,12 @@
 import Proofs.EvaluatorPay
 import Proofs.EvaluatorSim
 import Proofs.EvaluatorTrace
+import Proofs.EvaluatorFacts
+import Proofs.EvaluatorMultiThm
+import Proofs.EvaluatorMultiFacts
+import Proofs.EvaluatorMultiTrace
+import Proofs.EvaluatorMultiSearch
+import Model.EvaluatorMultiTrace
 
 /-!
 # C01 — Evaluator delivers every submitted job exactly once
@@ -19,11 +25,6 @@ worker slot; `ALL_COMPLETED` reports all of them), every run-function `p.f` and 
 namespace DH.Evaluator
 
 variable {C O : Type}
-
-theorem via_unique {l : List (Nat × Via)} (h : (l.map (·.1)).Nodup) {i : Nat} {a b : Via}
-    (ha : (i, a) ∈ l) (hb : (i, b) ∈ l) : a = b := by
-  have := eq_of_nodup_map (·.1) h ha hb rfl
-  exact (Prod.mk.injEq _ _ _ _ ▸ this).2
 
 /-- **C01 (exactly once).**  At every reachable state the ids ever created (`< nextId`) are
 partitioned into the jobs still in flight and the jobs delivered; no job is delivered twice, and
@@ -51,45 +52,8 @@ after close alike); `submit`, `gather("ALL")`, `close`, `dump` never raise, and 
 theorem C01_no_spurious_error (p : Params C O) {s : Ev C O} (h : Reach p s) (op : Op C)
     (hok : opOk s op = true) (e : Err) (he : (step p s op).2 = .error e) :
     ∃ k st ws, op = .gather false k st ws ∧ k ≠ 0 ∧ s.running = [] ∧
-      ((e = .noLoop ∧ s.loopOpen = false) ∨ (e = .noJobs ∧ s.loopOpen = true)) := by
-  obtain ⟨hi, _, _⟩ := reach_good h
-  cases op with
-  | submit cfgs => simp [step] at he
-  | dump fl =>
-    simp only [step] at he
-    rcases dump_shape p s fl with hd | ⟨_, hd⟩ <;> rw [hd] at he <;> simp at he
-  | close fin =>
-    simp only [step] at he
-    rcases close_spec (p := p) hi fin hok with ⟨hc, _⟩ | ⟨hc, _⟩ | ⟨s1, js, _, _, _, _, hc⟩ <;>
-      rw [hc] at he <;> simp at he
-  | gather all k st ws =>
-    simp only [step] at he
-    rcases gather_spec (p := p) hi all k st ws hok with ⟨hg, _⟩ | ⟨hg, h0, hl⟩ | ⟨hg, h0, hr⟩ |
-      ⟨done, s', js, hg, _⟩ <;> rw [hg] at he
-    · simp at he
-    · have hr : s.running = [] := by
-        by_cases hr : s.running = []
-        · exact hr
-        · rw [hi.loop hr] at hl; simp at hl
-      cases all with
-      | true => simp [hr] at h0
-      | false =>
-        simp only [Bool.false_eq_true, if_false] at h0
-        simp only [Out.error.injEq] at he
-        exact ⟨k, st, ws, rfl, h0, hr, Or.inl ⟨he.symm, hl⟩⟩
-    · cases all with
-      | true => simp [hr] at h0
-      | false =>
-        simp only [Bool.false_eq_true, if_false] at h0
-        simp only [Out.error.injEq] at he
-        have hl : s.loopOpen = true := by
-          by_cases hl : s.loopOpen = true
-          · exact hl
-          · exfalso
-            have hl' : s.loopOpen = false := by simpa using hl
-            simp [gather, h0, hl'] at hg
-        exact ⟨k, st, ws, rfl, h0, hr, Or.inr ⟨he.symm, hl⟩⟩
-    · simp at he
+      ((e = .noLoop ∧ s.loopOpen = false) ∨ (e = .noJobs ∧ s.loopOpen = true)) :=
+  fact_no_spurious_error p h op hok e he
 
 /-- **C01 (payload of a gather).**  Every job handed back by a gather was in flight, is recorded
 as gather-delivered, is `DONE`, carries the value the run-function returns for its configuration,
@@ -100,24 +64,8 @@ theorem C01_payload (p : Params C O) {s : Ev C O} {cs : List C} (h : Trace p s c
     (js : List (JobRec C O)) (hjs : (step p s (.gather all k st ws)).2 = .jobs js) :
     (js.map (·.id)).Nodup ∧
     ∀ j ∈ js, j.id ∈ runningIds s ∧ (j.id, Via.gather) ∈ (step p s (.gather all k st ws)).1.delivered ∧
-      j.status = .done ∧ j.out = some (p.f j.cfg) ∧ cs[j.id]? = some j.cfg := by
-  obtain ⟨hi, _, _⟩ := reach_good h.reach
-  have hnext : Trace p (step p s (.gather all k st ws)).1 (cs ++ submittedBy (.gather all k st ws)) :=
-    .step _ h hok
-  simp only [submittedBy, List.append_nil] at hnext
-  simp only [step] at hjs hnext ⊢
-  rcases gather_spec (p := p) hi all k st ws hok with ⟨hg, _⟩ | ⟨hg, _⟩ | ⟨hg, _⟩ |
-    ⟨done, s', js', hg, _, hnd, _, _, _, hsubm, _, many, _⟩ <;> rw [hg] at hjs hnext ⊢
-  · simp only [Out.jobs.injEq] at hjs; subst hjs; simp
-  · simp at hjs
-  · simp at hjs
-  · simp only [Out.jobs.injEq] at hjs; subst hjs
-    refine ⟨many.ids ▸ hnd, fun j hj => ?_⟩
-    have hjd : j.id ∈ done := many.ids ▸ List.mem_map_of_mem hj
-    obtain ⟨hst', hout, hmem⟩ := many.res j hj
-    refine ⟨?_, ?_, hst', hout, hnext.cfg_at hmem⟩
-    · rw [show runningIds s = s.submitted from hi.runSub]; exact hsubm j.id hjd
-    · rw [many.del]; simp [hjd]
+      j.status = .done ∧ j.out = some (p.f j.cfg) ∧ cs[j.id]? = some j.cfg :=
+  fact_payload p h all k st ws hok js hjs
 
 /-- **C01 (what close records).**  `close` never raises; afterwards nothing is in flight and the
 loop is gone; every job that was in flight is recorded as close-delivered exactly as the property
@@ -131,56 +79,8 @@ theorem C01_close_record (p : Params C O) {s : Ev C O} {cs : List C} (h : Trace 
     ∀ i ∈ runningIds s, (i, Via.close) ∈ (step p s (.close fin)).1.delivered ∧
       ∃ j ∈ (step p s (.close fin)).1.jobs, j.id = i ∧ cs[i]? = some j.cfg ∧
         (if i ∈ fin then j.status = .done ∧ j.out = some (p.f j.cfg)
-         else j.status = .cancelled ∧ j.out = if p.hpo then some p.cancelOut else none) := by
-  obtain ⟨hi, hp, _⟩ := reach_good h.reach
-  have hnext : Trace p (step p s (.close fin)).1 (cs ++ submittedBy (.close fin)) := .step _ h hok
-  simp only [submittedBy, List.append_nil] at hnext
-  have hrun : runningIds s = s.submitted := hi.runSub
-  simp only [step] at hnext ⊢
-  rcases close_spec (p := p) hi fin hok with ⟨hc, hl⟩ | ⟨hc, _, hr⟩ | ⟨s1, js, _, _, _, many, hc⟩ <;>
-    rw [hc] at hnext ⊢
-  · have hr : s.running = [] := by
-      by_cases hr : s.running = []
-      · exact hr
-      · rw [hi.loop hr] at hl; simp at hl
-    have hs : s.submitted = [] := by rw [← hi.runSub, hr]; rfl
-    refine ⟨rfl, hr, hs, hl, ?_⟩
-    intro i hi'; rw [hrun, hs] at hi'; simp at hi'
-  · have hs : s.submitted = [] := by rw [← hi.runSub, hr]; rfl
-    refine ⟨rfl, hr, hs, rfl, ?_⟩
-    intro i hi'; rw [hrun, hs] at hi'; simp at hi'
-  · refine ⟨rfl, rfl, rfl, rfl, ?_⟩
-    intro i hi'
-    rw [hrun] at hi'
-    have hp1 : Pay p s1 := Pay.manyStep hp many
-    by_cases hif : i ∈ fin
-    · simp only [hif, if_true]
-      constructor
-      · show (i, Via.close) ∈ s1.delivered ++ _
-        rw [many.del]; simp [hif]
-      · rw [← many.ids] at hif
-        obtain ⟨j, hj, hji⟩ := List.mem_map.1 hif
-        obtain ⟨hst, hout, hmem⟩ := many.res j hj
-        have hmem' : j ∈ (cancelActive p s1).jobs := by
-          simp only [cancelActive, List.mem_map]
-          exact ⟨j, hmem, by simp [active, hst]⟩
-        exact ⟨j, hmem', hji, hji ▸ hnext.cfg_at hmem', hst, hout⟩
-    · simp only [hif, if_false]
-      have hs1 : i ∈ s1.submitted := (many.sub i).2 ⟨hi', hif⟩
-      have hact : i ∈ activeIds s1 := many.inv.activeIds_perm.mem_iff.2 hs1
-      constructor
-      · show (i, Via.close) ∈ s1.delivered ++ _
-        exact List.mem_append_right _ (List.mem_map.2 ⟨i, hact, rfl⟩)
-      · simp only [activeIds, List.mem_map, List.mem_filter] at hact
-        obtain ⟨y, ⟨hy, hya⟩, hyi⟩ := hact
-        have hmem' : ({ y with status := .cancelled, out := if p.hpo then some p.cancelOut else y.out } :
-            JobRec C O) ∈ (cancelActive p s1).jobs := by
-          simp only [cancelActive, List.mem_map]
-          exact ⟨y, hy, by simp [hya]⟩
-        refine ⟨_, hmem', hyi, ?_, rfl, ?_⟩
-        · have := hnext.cfg_at hmem'
-          simpa [hyi] using this
-        · simp [hp1.actOut y hy hya]
+         else j.status = .cancelled ∧ j.out = if p.hpo then some p.cancelOut else none) :=
+  fact_close_record p h fin hok
 
 /-- **C01 (batch size).**  A gather that returns hands back at least `min(k, running)` jobs
 (`k` = everything for `"ALL"`), and an `"ALL"` gather leaves nothing running. -/
@@ -188,46 +88,16 @@ theorem C01_batch_size (p : Params C O) {s : Ev C O} (h : Reach p s) (all : Bool
     (st : List Nat) (ws : List (List Nat)) (hok : opOk s (.gather all k st ws) = true)
     (js : List (JobRec C O)) (hjs : (step p s (.gather all k st ws)).2 = .jobs js) :
     min (if all then s.running.length else k) s.running.length ≤ js.length ∧
-    (all = true → (step p s (.gather all k st ws)).1.running = []) := by
-  obtain ⟨hi, _, _⟩ := reach_good h
-  simp only [step] at hjs ⊢
-  rcases gather_spec (p := p) hi all k st ws hok with ⟨hg, h0⟩ | ⟨hg, _⟩ | ⟨hg, _⟩ |
-    ⟨done, s', js', hg, _, _, _, _, _, _, _, many, hlen, hall⟩ <;> rw [hg] at hjs ⊢
-  · simp only [Out.jobs.injEq] at hjs; subst hjs
-    refine ⟨by simp [h0], fun ha => ?_⟩
-    subst ha
-    simp only [if_true] at h0
-    exact List.length_eq_zero_iff.1 h0
-  · simp at hjs
-  · simp at hjs
-  · simp only [Out.jobs.injEq] at hjs; subst hjs
-    have hl : js'.length = done.length := by rw [← many.ids]; simp
-    refine ⟨hl ▸ hlen, fun ha => ?_⟩
-    have hsub : s'.submitted = [] := by
-      apply List.eq_nil_iff_forall_not_mem.2
-      intro i hi'
-      have := (many.sub i).1 hi'
-      exact this.2 (hall ha i this.1)
-    have := many.inv.runSub
-    rw [hsub] at this
-    exact List.map_eq_nil_iff.1 this
+    (all = true → (step p s (.gather all k st ws)).1.running = []) :=
+  fact_batch_size p h all k st ws hok js hjs
 
 /-- **C01 (counters).**  `num_jobs_submitted` is the number of configurations ever submitted,
 `num_jobs_gathered` the number of jobs ever delivered (by a gather or by close), and every
 submitted job is either in flight or counted as gathered. -/
 theorem C01_counts (p : Params C O) {s : Ev C O} {cs : List C} (h : Trace p s cs) :
     numSubmitted s = cs.length ∧ numGathered s = s.delivered.length ∧
-    numSubmitted s = s.running.length + numGathered s := by
-  obtain ⟨hi, _, hh⟩ := reach_good h.reach
-  have h1 : s.jobs.length = cs.length := by rw [← h.cfgs]; simp
-  have h2 : s.jobs.length = s.nextId := by
-    have := congrArg List.length hi.ids; simpa using this
-  have h3 : s.gathered.length = s.delivered.length := by rw [hh.gath]; simp
-  have h4 : s.submitted.length + s.delivered.length = s.nextId := by
-    have := hi.part.length_eq; simpa using this
-  have h5 : s.running.length = s.submitted.length := by rw [← hi.runSub]; simp
-  simp only [numSubmitted, numGathered]
-  omega
+    numSubmitted s = s.running.length + numGathered s :=
+  fact_counts p h
 
 /-- **C01 (dumped once).**  The rows ever written by `dump_jobs_done_to_csv` together with the
 jobs still waiting in `jobs_done` are exactly the delivered jobs, each once; a dump writes nothing
@@ -378,5 +248,478 @@ example : (run pEx init [.submit [1], .close [], .gather true 0 [] []]).2.getLas
 /-- pinned tree: `submit 1; close; submit 1; close` raises in the second close -/
 example : (runWith (stepPre pEx) init [.submit [1], .close [], .submit [2], .close []]).2.getLast? =
     some (.error .loopClosed) := by decide +kernel
+
+/-! # Several evaluators attached to ONE storage search (`Model/EvaluatorMulti.lean`)
+
+`MReach p n sys`: `sys` is reachable from a new search with `n` evaluators attached by **any interleaving**
+of any number of `submit / gather ALL / gather BATCH k / close / dump / set_maximum_num_jobs_submitted`
+calls of any of the evaluators, for every completion environment that satisfies the asyncio contract
+(`mOpOk`).  Job ids are the ids of the shared storage search. -/
+
+theorem mOpOk_local {sys : Sys C O} {who : Nat} {me : MEv C O} {op : MOp C} (hme : sys.evs[who]? = some me)
+    (h : mOpOk sys who op = true) : mOpOkLocal sys.rows me op = true := by
+  unfold mOpOk at h; rw [hme] at h; exact h
+
+/-- **C01 (several evaluators — projection).**  In every reachable system the private state of every
+evaluator is, up to the numbering of its jobs (`rho`: its `k`-th job ↦ the storage id), a state of the
+single-evaluator model reachable under the single-evaluator contract: whatever the other evaluators do to
+the shared storage, an evaluator's own bookkeeping behaves as if it were alone.  All theorems above
+(`C01_exactly_once` … `C01_usable_after_close`) therefore hold for the simulating state `s`. -/
+theorem C01_multi_projection (p : MParams C O) {n : Nat} {sys : Sys C O} (h : MReach p n sys) {who : Nat}
+    {me : MEv C O} (hme : sys.evs[who]? = some me) :
+    ∃ s, Reach p.toParams s ∧ Rel sys.rows me s :=
+  ((mreach_inv h).ev who me hme).sim
+
+/-- **C01 (several evaluators — exactly once, by the owner).**  Job ids are unique across the evaluators
+(`0 … rows.length-1`); every job has exactly one owner and is in `self.jobs` of that evaluator only; for
+every evaluator its own jobs are partitioned into the jobs in flight and the jobs it delivered (handed back by
+one of ITS gathers or recorded by ITS close) — never lost, never twice, never both, never by another evaluator. -/
+theorem C01_multi_exactly_once (p : MParams C O) {n : Nat} {sys : Sys C O} (h : MReach p n sys) :
+    sys.rows.map (·.id) = List.range sys.rows.length ∧
+    (∀ r ∈ sys.rows, r.owner < n ∧
+      ∀ (w : Nat) (mw : MEv C O), sys.evs[w]? = some mw → (r.id ∈ mw.jobs ↔ w = r.owner)) ∧
+    ∀ (who : Nat) (me : MEv C O), sys.evs[who]? = some me →
+      (∀ g ∈ me.jobs, g < sys.rows.length) ∧
+      (me.delivered.map (·.1)).Nodup ∧ (mRunningIds me).Nodup ∧
+      (∀ g, g ∈ me.jobs ↔ (g ∈ mRunningIds me ∨ g ∈ me.delivered.map (·.1))) ∧
+      (∀ g ∈ mRunningIds me, g ∉ me.delivered.map (·.1)) ∧
+      (∀ g, ¬ ((g, Via.gather) ∈ me.delivered ∧ (g, Via.close) ∈ me.delivered)) := by
+  have hinv := mreach_inv h
+  obtain ⟨h1, h2, h3⟩ := multi_owner hinv
+  exact ⟨h1, h2, fun who me hme => ⟨h3 who me hme, multi_exactly_once hinv hme⟩⟩
+
+/-- **C01 (one evaluator = the single-evaluator model).**  With one evaluator attached the numbering is the
+identity: the evaluator's tasks, in-flight ids, deliveries and job records ARE those of a reachable state of
+`Model/Evaluator.lean`, and no job is ever reported as another evaluator's. -/
+theorem C01_multi_single (p : MParams C O) {sys : Sys C O} (h : MReach p 1 sys) {me : MEv C O}
+    (hme : sys.evs[0]? = some me) :
+    ∃ s, Reach p.toParams s ∧ s.nextId = sys.rows.length ∧ s.jobs = sys.rows.map recOf ∧
+      s.running = me.running ∧ s.submitted = me.submitted ∧ s.delivered = me.delivered ∧
+      s.loopGen = me.loopGen ∧ s.loopOpen = me.loopOpen ∧ me.reported = [] := by
+  have hinv := mreach_inv h
+  have hev := hinv.ev 0 me hme
+  obtain ⟨s, hs, hr⟩ := hev.sim
+  have hjobs := multi_single_jobs hinv hme
+  have hid : rho me.jobs sys.rows.length = fun k => k := by
+    funext k; rw [hjobs]; exact rho_range _ k
+  have hown : ownRows sys.rows me.jobs = sys.rows := by
+    unfold ownRows
+    apply List.filter_eq_self.2
+    intro r hr'
+    have := row_id_lt hinv.rows.ids hr'
+    rw [hjobs]; simpa using this
+  refine ⟨s, hs, by rw [hr.n, hjobs]; simp, ?_, ?_, ?_, ?_, hr.gen, hr.lopen, ?_⟩
+  · have := hr.jobs
+    rw [hid, hown] at this
+    rw [← this]
+    conv => lhs; rw [← List.map_id s.jobs]
+    rfl
+  · have := hr.running
+    rw [hid] at this
+    rw [← this]
+    conv => lhs; rw [← List.map_id s.running]
+    rfl
+  · have := hr.submitted
+    rw [hid] at this
+    rw [← this]; simp
+  · have := hr.delivered
+    rw [hid] at this
+    rw [← this]
+    conv => lhs; rw [← List.map_id s.delivered]
+    rfl
+  · apply List.eq_nil_iff_forall_not_mem.2
+    intro g hg
+    obtain ⟨h1, h2⟩ := hev.hist.repForeign g hg
+    rw [hjobs] at h1
+    exact h1 (List.mem_range.2 h2)
+
+/-- **C01 (several evaluators — what a gather hands back).**  For a gather of evaluator `who` in any
+reachable system, under the environment contract:
+
+* it raises only when it is a sized gather while NOTHING OF ITS OWN is in flight (`noLoop` / `noJobs`);
+* every job of the `local` list was in flight at this evaluator (so it is its own), is recorded as
+  gather-delivered by it, is `DONE`, carries the run-function's value for its configuration, and that
+  configuration is the one stored for this job id when it was submitted (`row.cfg`; rows never change it:
+  `C01_multi_frame`), and the record handed back is the job's row after the call; no id twice; at least `min(k, running)` jobs; `ALL` leaves nothing of its own running;
+* every job of the `other` list belongs to ANOTHER evaluator, has already been accounted for by its owner
+  (its status is terminal — `C01_multi_reported` shows the owner delivered it), was never reported to this
+  evaluator before, and is reported with the same configuration, output and status as its owner's record
+  (payload identity across evaluators). -/
+theorem C01_multi_gather (p : MParams C O) {n : Nat} {sys : Sys C O} (h : MReach p n sys) {who : Nat}
+    {me : MEv C O} (hme : sys.evs[who]? = some me) (all : Bool) (k : Nat) (st : List Nat)
+    (ws : List (List Nat)) (hok : mOpOk sys who (.gather all k st ws) = true) :
+    (∀ e, (mStep p sys who (.gather all k st ws)).2 = .error e →
+      all = false ∧ k ≠ 0 ∧ me.running = [] ∧
+        ((e = .noLoop ∧ me.loopOpen = false) ∨ (e = .noJobs ∧ me.loopOpen = true))) ∧
+    (∀ js others, (mStep p sys who (.gather all k st ws)).2 = .jobs js others →
+      ∃ me', (mStep p sys who (.gather all k st ws)).1.evs[who]? = some me' ∧
+        (js.map (·.id)).Nodup ∧
+        (∀ j ∈ js, j.id ∈ mRunningIds me ∧ (j.id, Via.gather) ∈ me'.delivered ∧ j.status = .done ∧
+          j.out = some (p.f j.cfg) ∧ (∃ row ∈ sys.rows, row.id = j.id ∧ row.owner = who ∧ row.cfg = j.cfg) ∧
+          ∃ row' ∈ (mStep p sys who (.gather all k st ws)).1.rows, recOf row' = j) ∧
+        min (if all then me.running.length else k) me.running.length ≤ js.length ∧
+        (all = true → me'.running = []) ∧
+        me'.reported = me.reported ++ others.map (·.id) ∧ (others.map (·.id)).Nodup ∧
+        (∀ o ∈ others, o.id ∉ me.reported ∧
+          ∃ row ∈ (mStep p sys who (.gather all k st ws)).1.rows, row.id = o.id ∧ row.owner ≠ who ∧
+            activeRow row = false ∧ o.cfg = row.cfg ∧ o.out = row.out ∧ o.status = row.status)) :=
+  multi_gather (mreach_inv h) hme all k st ws (mOpOk_local hme hok)
+
+/-- **C01 (several evaluators — what close records).**  `close` of evaluator `who` never raises; afterwards
+nothing of its own is in flight and its loop is gone; every job that was in flight AT THIS EVALUATOR is
+recorded as close-delivered by it: `DONE` with the run-function's value if its task had finished
+(`g ∈ fin`), `CANCELLED` otherwise (`"F_CANCELLED"` in the HPO format), with the configuration stored at
+submission. -/
+theorem C01_multi_close_record (p : MParams C O) {n : Nat} {sys : Sys C O} (h : MReach p n sys) {who : Nat}
+    {me : MEv C O} (hme : sys.evs[who]? = some me) (fin : List Nat)
+    (hok : mOpOk sys who (.close fin) = true) :
+    (mStep p sys who (.close fin)).2 = .unit ∧
+    ∃ me', (mStep p sys who (.close fin)).1.evs[who]? = some me' ∧
+      me'.running = [] ∧ me'.submitted = [] ∧ me'.loopOpen = false ∧
+      ∀ g ∈ mRunningIds me, (g, Via.close) ∈ me'.delivered ∧
+        ∃ row ∈ (mStep p sys who (.close fin)).1.rows, row.id = g ∧ row.owner = who ∧
+          (∃ row0 ∈ sys.rows, row0.id = g ∧ row0.cfg = row.cfg) ∧
+          (if g ∈ fin then row.status = .done ∧ row.out = some (p.f row.cfg)
+           else row.status = .cancelled ∧ row.out = if p.hpo then some p.cancelOut else none) :=
+  multi_close_record (mreach_inv h) hme fin (mOpOk_local hme hok)
+
+/-- **C01 (several evaluators — reports of the others' jobs).**  In every reachable system, for every
+evaluator: each job of another evaluator is reported to it at most once; a reported job is not its own, its
+owner had already accounted for it (handed it back by a gather or recorded it by close: it is in the owner's
+`delivered`, its status is terminal), and the `Job` object built for the report carries the job's stored
+configuration and the output its owner saw (payload identity across evaluators). -/
+theorem C01_multi_reported (p : MParams C O) {n : Nat} {sys : Sys C O} (h : MReach p n sys) {who : Nat}
+    {me : MEv C O} (hme : sys.evs[who]? = some me) :
+    me.reported.Nodup ∧ me.foreign.map (·.id) = me.reported ∧
+    (∀ o ∈ me.foreign, o.id ∉ me.jobs ∧
+      ∃ row ∈ sys.rows, row.id = o.id ∧ row.owner ≠ who ∧ activeRow row = false ∧
+        o.cfg = row.cfg ∧ o.out = row.out ∧
+        ∃ mw, sys.evs[row.owner]? = some mw ∧ o.id ∈ mw.jobs ∧ ∃ via, (o.id, via) ∈ mw.delivered) := by
+  have hinv := mreach_inv h
+  have hev := hinv.ev who me hme
+  refine ⟨hev.hist.repNodup, hev.hist.foreign, fun o ho => ?_⟩
+  have hrep : o.id ∈ me.reported := by rw [← hev.hist.foreign]; exact List.mem_map_of_mem ho
+  obtain ⟨hnj, _⟩ := hev.hist.repForeign o.id hrep
+  obtain ⟨row, hrow, b1, b2, b3, b4, _⟩ := hev.hist.fobj o ho
+  have hlt : row.owner < sys.evs.length := hinv.len ▸ hinv.rows.owner row hrow
+  have hmw : sys.evs[row.owner]? = some sys.evs[row.owner] := List.getElem?_eq_getElem hlt
+  have hown : o.id ∈ sys.evs[row.owner].jobs := b1 ▸ ((hinv.ev _ _ hmw).own row hrow).1 rfl
+  refine ⟨hnj, row, hrow, b1, fun e => hnj (b1 ▸ (hev.own row hrow).1 e), b2, b3, b4, _, hmw, hown, ?_⟩
+  obtain ⟨_, _, hpart, _, _⟩ := multi_exactly_once hinv hmw
+  rcases (hpart o.id).1 hown with hrun | hdel
+  · obtain ⟨r, hr, hact⟩ := multi_running_active hinv hmw hrun
+    have : r = row := by
+      have h1 := rowOf_of_mem (rows_nodup hinv.rows.ids) hrow
+      rw [b1, hr] at h1
+      exact Option.some.inj h1
+    rw [this, b2] at hact
+    exact absurd hact (by simp)
+  · obtain ⟨x, hx, hxe⟩ := List.mem_map.1 hdel
+    exact ⟨x.2, by rw [← hxe]; exact hx⟩
+
+/-- **C01 (several evaluators — frame).**  A call of evaluator `who` does not change the private state of
+any other evaluator, nor any row (status, input, outputs) of a job of another evaluator, nor any row whose
+status is terminal; ids, owners and configurations of existing rows are never rewritten (new rows are only
+appended). -/
+theorem C01_multi_frame (p : MParams C O) {n : Nat} {sys : Sys C O} (h : MReach p n sys) (who : Nat)
+    (op : MOp C) (hok : mOpOk sys who op = true) :
+    (∀ j, j ≠ who → (mStep p sys who op).1.evs[j]? = sys.evs[j]?) ∧
+    (∀ r ∈ sys.rows, r.owner ≠ who → r ∈ (mStep p sys who op).1.rows) ∧
+    (∀ r ∈ sys.rows, activeRow r = false → r ∈ (mStep p sys who op).1.rows) ∧
+    sys.rows.map (fun r => (r.id, r.owner, r.cfg)) <+:
+      (mStep p sys who op).1.rows.map (fun r => (r.id, r.owner, r.cfg)) := by
+  have hinv := mreach_inv h
+  cases hme : sys.evs[who]? with
+  | none => unfold mOpOk at hok; rw [hme] at hok; simp at hok
+  | some me =>
+    obtain ⟨me', hevs, hstep, _, hnew⟩ := mStep_frame hinv hme op (mOpOk_local hme hok)
+    refine ⟨fun j hj => ?_, fun r hr hne => ?_, hstep.frozen, hstep.pre⟩
+    · rw [hevs, List.getElem?_set_ne (fun e => hj e.symm)]
+    · have hnj : r.id ∉ me'.jobs := by
+        intro hin
+        rcases hnew _ hin with h1 | h1
+        · exact hne (((hinv.ev who me hme).own r hr).2 h1)
+        · have := row_id_lt hinv.rows.ids hr; omega
+      have := hstep.frame [r.id] (by simpa using hnj)
+      have hmem : r ∈ ownRows sys.rows [r.id] := List.mem_filter.2 ⟨hr, by simp⟩
+      rw [← this] at hmem
+      exact (List.mem_filter.1 hmem).1
+
+/-- **C01 (several evaluators — no spurious exception).**  The only calls that raise are a sized
+`gather("BATCH", k ≥ 1)` while nothing of the evaluator's own is in flight, and a `submit` cut by the cap
+(`MaximumJobsSpawnReached`, a result of its own: `C01_multi_cap`); the internal errors are unreachable
+whatever the other evaluators do. -/
+theorem C01_multi_no_spurious_error (p : MParams C O) {n : Nat} {sys : Sys C O} (h : MReach p n sys) {who : Nat}
+    {me : MEv C O} (hme : sys.evs[who]? = some me) (op : MOp C) (hok : mOpOk sys who op = true) (e : Err)
+    (he : (mStep p sys who op).2 = .error e) :
+    ∃ k st ws, op = .gather false k st ws ∧ k ≠ 0 ∧ me.running = [] ∧
+      ((e = .noLoop ∧ me.loopOpen = false) ∨ (e = .noJobs ∧ me.loopOpen = true)) := by
+  cases op with
+  | gather all k st ws =>
+    obtain ⟨ha, hk, hr, hc⟩ := (C01_multi_gather p h hme all k st ws hok).1 e he
+    subst ha
+    exact ⟨k, st, ws, rfl, hk, hr, hc⟩
+  | close fin =>
+    rw [(C01_multi_close_record p h hme fin hok).1] at he; simp at he
+  | submit cfgs =>
+    unfold mStep at he; rw [hme] at he
+    simp only [mStepLocal, mSubmit] at he
+    split at he <;> simp at he
+  | dump fl =>
+    unfold mStep at he; rw [hme] at he
+    simp only [mStepLocal, mDump] at he
+    split at he
+    · simp at he
+    · split at he <;> simp at he
+  | setMax k =>
+    unfold mStep at he; rw [hme] at he
+    simp [mStepLocal] at he
+
+/-- **C01 (several evaluators — the counters).**  As the code defines them: `num_jobs_submitted` is the
+number of jobs of the SHARED search minus the offset, `num_jobs_gathered` the evaluator's own deliveries plus
+the jobs of other evaluators reported to it, minus the offset; and the evaluator's own jobs are its jobs in
+flight plus its deliveries. -/
+theorem C01_multi_counts (p : MParams C O) {n : Nat} {sys : Sys C O} (h : MReach p n sys) {who : Nat}
+    {me : MEv C O} (hme : sys.evs[who]? = some me) :
+    mNumSubmitted sys.rows me = (sys.rows.length : Int) - me.offset ∧
+    mNumGathered me = ((me.delivered.length + me.reported.length : Nat) : Int) - me.offset ∧
+    me.jobs.length = me.running.length + me.delivered.length := by
+  have hinv := mreach_inv h
+  have hev := hinv.ev who me hme
+  obtain ⟨s, hs, hr⟩ := hev.sim
+  obtain ⟨cs, ht⟩ := reach_trace hs
+  obtain ⟨c1, c2, c3⟩ := C01_counts p.toParams ht
+  refine ⟨rfl, ?_, ?_⟩
+  · unfold mNumGathered
+    have := hev.hist.gath.length_eq
+    simp only [List.length_append, List.length_map] at this
+    rw [this]
+  · have e1 : me.jobs.length = s.nextId := hr.n.symm
+    have e2 : me.running.length = s.running.length := hr.runLen
+    have e3 : me.delivered.length = s.delivered.length := by rw [← hr.delivered]; simp
+    simp only [numSubmitted, numGathered] at c1 c2 c3
+    omega
+
+/-- **C01 (several evaluators — dumped once).**  The rows an evaluator ever wrote together with the jobs
+waiting in its `jobs_done` are exactly its own deliveries plus the jobs of other evaluators reported to it,
+each once; a dump writes nothing (state unchanged) or exactly `jobs_done`, in order, and empties it. -/
+theorem C01_multi_dump_once (p : MParams C O) {n : Nat} {sys : Sys C O} (h : MReach p n sys) {who : Nat}
+    {me : MEv C O} (hme : sys.evs[who]? = some me) :
+    (me.dumped ++ me.jobsDone).Perm (me.delivered.map (·.1) ++ me.reported) ∧
+    (me.dumped ++ me.jobsDone).Nodup ∧
+    ∀ fl l, (mStep p sys who (.dump fl)).2 = .rows l →
+      (l = [] ∧ (mStep p sys who (.dump fl)).1.rows = sys.rows ∧
+        (mStep p sys who (.dump fl)).1.evs[who]? = some me) ∨
+      (l.map (·.id) = me.jobsDone ∧ (mStep p sys who (.dump fl)).1.rows = sys.rows ∧
+        ∃ me', (mStep p sys who (.dump fl)).1.evs[who]? = some me' ∧ me'.jobsDone = [] ∧
+          me'.dumped = me.dumped ++ me.jobsDone) := by
+  have hinv := mreach_inv h
+  have hev := hinv.ev who me hme
+  obtain ⟨hd1, _, hpart, _, _⟩ := multi_exactly_once hinv hme
+  have hnd : (me.delivered.map (·.1) ++ me.reported).Nodup := by
+    rw [List.nodup_append]
+    refine ⟨hd1, hev.hist.repNodup, ?_⟩
+    intro a ha b hb hab
+    subst hab
+    exact (hev.hist.repForeign a hb).1 ((hpart a).2 (Or.inr ha))
+  refine ⟨hev.hist.dumpOnce, hev.hist.dumpOnce.nodup_iff.2 hnd, fun fl l hl => ?_⟩
+  unfold mStep at hl ⊢
+  rw [hme] at hl ⊢
+  simp only [mStepLocal, mDump] at hl ⊢
+  split at hl
+  · rename_i h0
+    simp only [MOut.rows.injEq] at hl
+    left
+    rw [if_pos h0]
+    exact ⟨hl.symm, rfl, set_getElem?_self hme⟩
+  · rename_i h0
+    split at hl
+    · rename_i h1
+      simp only [MOut.rows.injEq] at hl
+      right
+      rw [if_neg h0, if_pos h1]
+      exact ⟨by rw [← hl]; exact doneRecs_ids hinv hme, rfl, _, set_getElem?_self hme, rfl, rfl⟩
+    · rename_i h1
+      simp only [MOut.rows.injEq] at hl
+      left
+      rw [if_neg h0, if_neg h1]
+      exact ⟨hl.symm, rfl, set_getElem?_self hme⟩
+
+/-- **C01 (the cap: `set_maximum_num_jobs_submitted` / `MaximumJobsSpawnReached`).**  A submit of `cfgs` by an
+evaluator whose cap is `maxSub` creates exactly `mRoom = min(len(cfgs), maxSub − num_jobs_submitted)` jobs
+(all of them when `maxSub ≤ 0`; `num_jobs_submitted` = jobs of the shared search − offset, as the code defines
+it): the FIRST `mRoom` configurations, in order, with consecutive ids, owned by this evaluator; it returns
+normally iff all were created and raises `MaximumJobsSpawnReached` otherwise; the configurations left out are
+NOT accounted as submitted (no row, no id, counter unchanged).  `MReach` is closed under these calls, so
+exactly-once and the counter identities (`C01_multi_exactly_once`, `C01_multi_counts`) hold after them. -/
+theorem C01_multi_cap (p : MParams C O) (sys : Sys C O) {who : Nat} {me : MEv C O}
+    (hme : sys.evs[who]? = some me) (cfgs : List C) :
+    let m := mRoom sys.rows me cfgs.length
+    let r := mStep p sys who (.submit cfgs)
+    m ≤ cfgs.length ∧
+    r.1.rows.map (·.cfg) = sys.rows.map (·.cfg) ++ cfgs.take m ∧
+    r.1.rows.length = sys.rows.length + m ∧
+    r.2 = (if m = cfgs.length then .unit else .spawnMax m) ∧
+    ∃ me', r.1.evs[who]? = some me' ∧
+      me'.jobs = me.jobs ++ List.range' sys.rows.length m ∧
+      me'.running.length = me.running.length + m ∧
+      mNumSubmitted r.1.rows me' = mNumSubmitted sys.rows me + m ∧ mNumGathered me' = mNumGathered me := by
+  intro m r
+  have hm : m ≤ cfgs.length := by
+    show mRoom sys.rows me cfgs.length ≤ cfgs.length
+    unfold mRoom; split <;> omega
+  have hse := mSetEventLoop_same me
+  have hse2 : (mSetEventLoop me).maxSub = me.maxSub ∧ (mSetEventLoop me).offset = me.offset ∧
+      (mSetEventLoop me).running = me.running := by
+    unfold mSetEventLoop; split <;> exact ⟨rfl, rfl, rfl⟩
+  have hroom : mRoom sys.rows (mSetEventLoop me) cfgs.length = m := by
+    show _ = mRoom sys.rows me cfgs.length
+    unfold mRoom mNumSubmitted; rw [hse2.1, hse2.2.1]
+  obtain ⟨a1, a2, a3, a4, a5, a6, a7⟩ := mCreateTasks_cap who cfgs 0 (sys.rows, mSetEventLoop me)
+  simp only [hroom] at a1 a2 a3 a4 a5
+  have hr : r = mStep p sys who (.submit cfgs) := rfl
+  unfold mStep at hr
+  rw [hme] at hr
+  simp only [mStepLocal, mSubmit] at hr
+  cases hc : mCreateTasks who (sys.rows, mSetEventLoop me) 0 cfgs with
+  | mk st' res =>
+    rw [hc] at a1 a2 a3 a4 a5 a6 a7 hr
+    have hr1 : r.1 = { rows := st'.1, evs := sys.evs.set who st'.2 } := by
+      rw [hr]; cases res <;> rfl
+    have hr2 : r.2 = (if m = cfgs.length then .unit else .spawnMax m) := by
+      rw [hr]
+      cases res with
+      | none =>
+        by_cases hh : m = cfgs.length
+        · rw [if_pos hh]
+        · rw [if_neg hh] at a3; simp at a3
+      | some k =>
+        by_cases hh : m = cfgs.length
+        · rw [if_pos hh] at a3; simp at a3
+        · rw [if_neg hh] at a3 ⊢
+          simp only [Nat.zero_add, Option.some.injEq] at a3
+          rw [a3]
+    refine ⟨hm, by rw [hr1]; exact a1, by rw [hr1]; exact a2, hr2, st'.2, by rw [hr1]; exact set_getElem?_self hme,
+      by rw [a4, hse.2], by rw [a5, hse2.2.2], ?_, ?_⟩
+    · unfold mNumSubmitted
+      rw [hr1, a7, hse2.2.1]
+      show ((st'.1.length : Nat) : Int) - _ = _
+      rw [a2]; push_cast; omega
+    · unfold mNumGathered
+      have := (mCreateTasks_same who cfgs 0 (sys.rows, mSetEventLoop me)).1.gathered
+      rw [hc] at this
+      rw [a7, hse2.2.1, this, hse.1.gathered]
+
+/-- **C01 ↔ C03 (bridge).**  The budget counters of `Model/Search.lean` (`stored`, `running`, `offset`,
+`maxSub`) read off an evaluator evolve under `Search.submit` exactly as under `_create_tasks` of this model,
+and `Search.submit` reports `MaximumJobsSpawnReached` in exactly the same cases. -/
+theorem C01_multi_cap_search (who : Nat) (base : DH.Search.Ev) (cfgs : List C) (rows : List (Row C O))
+    (me : MEv C O) :
+    (DH.Search.submit (budgetView base rows (mSetEventLoop me)) cfgs.length).1 =
+      budgetView base (mSubmit who (rows, me) cfgs).1.1 (mSubmit who (rows, me) cfgs).1.2 ∧
+    ((DH.Search.submit (budgetView base rows (mSetEventLoop me)) cfgs.length).2 = true ↔
+      ∃ k, (mSubmit who (rows, me) cfgs).2 = .spawnMax k) := by
+  have := createTasks_search who base cfgs 0 (rows, mSetEventLoop me)
+  rw [this]
+  unfold mSubmit
+  cases hc : mCreateTasks who (rows, mSetEventLoop me) 0 cfgs with
+  | mk st' res => cases res <;> simp
+
+section checker
+variable [DecidableEq C] [DecidableEq O]
+
+theorem checkMTraceFrom_iff (p : MParams C O) :
+    ∀ (t : List (MTStep C O)) (a : MAcc C O), checkMTraceFrom p a t = true ↔ MTraceSpecFrom p a t
+  | [], a => by simp [checkMTraceFrom, MTraceSpecFrom]
+  | st :: rest, a => by
+    simp only [checkMTraceFrom, MTraceSpecFrom, Bool.and_eq_true, decide_eq_true_eq,
+      checkMTraceFrom_iff p rest (mNextAcc a st)]
+
+/-- **C01 (several evaluators — verified checker).**  The executable checker the driver runs on the trace
+observed on the REAL evaluators attached to one storage search decides exactly the property stated over
+observable traces (`MTraceSpec`: own jobs exactly once and by their owner, payload, batch sizes, close records,
+only legitimate refusals, the cap, both counters, `jobs_done` / dumped rows, and for the reports of other
+evaluators' jobs: already accounted for by the owner, identical record, at most once, none missed). -/
+theorem C01_multi_checker (p : MParams C O) (n : Nat) (t : List (MTStep C O)) :
+    checkMTrace p n t = true ↔ MTraceSpec p n t :=
+  checkMTraceFrom_iff p t (MAcc.init n)
+
+end checker
+
+/-- **C01 (several evaluators — the model's traces satisfy the trace property).**  For every number of
+evaluators, every interleaving of their calls (caps included) and every completion environment satisfying
+the contract, what an observer sees of the model's run satisfies `MTraceSpec`: the property over traces is a
+consequence of the theorems above, and the checker accepts every behaviour the model can show. -/
+theorem C01_multi_model_traces_ok (p : MParams C O) (n : Nat) (ops : List (Nat × MOp C))
+    (hok : mOpsOk p (Sys.init n) ops = true) : MTraceSpec p n (mTraceOf p (Sys.init n) ops) :=
+  mTraceOf_ok ops (SInv.init p n) (MAccRel.init n) hok
+
+/-! ## Non-vacuity: two evaluators on one search — interleaved submits, a BATCH gather, reports of the other
+evaluator's jobs (in string order of the ids), a cap that cuts a batch, a close that cancels a job which is then
+reported as CANCELLED, dumps -/
+
+def pM : MParams Nat Nat :=
+  { f := fun c => c + 100, hpo := true, cancelOut := 1, isStr := fun o => o == 1, truthy := fun o => o != 0 }
+
+def opsM : List (Nat × MOp Nat) :=
+  [(0, .submit [7, 8, 9]), (1, .submit [20, 21]),
+   (0, .gather false 2 [0, 1, 2] [[1], [2, 1]]),
+   (1, .gather true 0 [3, 4] [[4, 3]]),
+   (1, .setMax 2), (1, .submit [30, 31, 32, 33]),
+   (0, .close []),
+   (1, .gather false 1 [5] [[5]]),
+   (0, .dump false), (1, .dump true)]
+
+example : mOpsOk pM (Sys.init 2) opsM = true := by decide +kernel
+example : MReach pM 2 (mRun pM (Sys.init 2) opsM).1 := mreach_run opsM .init (by decide +kernel)
+example : (mRun pM (Sys.init 2) opsM).2 =
+    [.unit, .unit,
+     .jobs [⟨2, 9, some 109, .done⟩, ⟨1, 8, some 108, .done⟩] [],
+     .jobs [⟨4, 21, some 121, .done⟩, ⟨3, 20, some 120, .done⟩] [⟨1, 8, some 108, .done⟩, ⟨2, 9, some 109, .done⟩],
+     .unit, .spawnMax 1, .unit,
+     .jobs [⟨5, 30, some 130, .done⟩] [⟨0, 7, some 1, .cancelled⟩],
+     .rows [⟨2, 9, some 109, .done⟩, ⟨1, 8, some 108, .done⟩, ⟨0, 7, some 1, .cancelled⟩],
+     .rows [⟨4, 21, some 121, .done⟩, ⟨3, 20, some 120, .done⟩, ⟨1, 8, some 108, .done⟩, ⟨2, 9, some 109, .done⟩,
+            ⟨5, 30, some 130, .done⟩, ⟨0, 7, some 1, .cancelled⟩]] := by decide +kernel
+example : (mRun pM (Sys.init 2) opsM).1.evs.map (fun e => (e.jobs, e.delivered, e.reported)) =
+    [([0, 1, 2], [(2, .gather), (1, .gather), (0, .close)], []),
+     ([3, 4, 5], [(4, .gather), (3, .gather), (5, .gather)], [1, 2, 0])] := by decide +kernel
+/-- the counters as the code defines them (`(num_jobs_submitted, num_jobs_gathered)` after every call) -/
+example : (mTraceOf pM (Sys.init 2) opsM).map (fun s => (s.numSubmitted, s.numGathered)) =
+    [(3, 0), (5, 0), (5, 2), (5, 4), (1, 0), (2, 0), (6, 3), (2, 2), (6, 3), (2, 2)] := by decide +kernel
+example : checkMTrace pM 2 (mTraceOf pM (Sys.init 2) opsM) = true := by decide +kernel
+/-- one evaluator (`C01_multi_single`), with a cap -/
+example : MReach pM 1 (mRun pM (Sys.init 1)
+    [(0, .submit [7, 8]), (0, .setMax 3), (0, .submit [9, 10]), (0, .gather true 0 [0, 1, 2] [[2, 0, 1]]),
+     (0, .close [])]).1 := mreach_run _ .init (by decide +kernel)
+example : (mRun pM (Sys.init 1)
+    [(0, .submit [7, 8]), (0, .setMax 3), (0, .submit [9, 10]), (0, .gather true 0 [0, 1, 2] [[2, 0, 1]]),
+     (0, .close [])]).2 =
+    [.unit, .unit, .spawnMax 1,
+     .jobs [⟨2, 9, some 109, .done⟩, ⟨0, 7, some 107, .done⟩, ⟨1, 8, some 108, .done⟩] [], .unit] := by
+  decide +kernel
+/-- ids sort as strings in `np.setdiff1d`: `"s.10" < "s.2"` -/
+example : sortIds [0, 1, 2, 9, 10, 11, 20] = [0, 1, 10, 11, 2, 20, 9] := by decide +kernel
+/-- the checker rejects a trace in which evaluator 1 is told about job 0 BEFORE its owner accounted for it -/
+example : checkMTrace pM 2
+    [⟨0, .submit [7], .unit, 1, 0, []⟩,
+     ⟨1, .gather true 0, .jobs [] [⟨0, 7, some 107, .done⟩], 1, 1, [⟨0, 7, some 107, .done⟩]⟩] = false := by
+  decide +kernel
+/-- … one in which the report carries another configuration than the owner's record -/
+example : checkMTrace pM 2
+    [⟨0, .submit [7], .unit, 1, 0, []⟩,
+     ⟨0, .gather true 0, .jobs [⟨0, 7, some 107, .done⟩] [], 1, 1, [⟨0, 7, some 107, .done⟩]⟩,
+     ⟨1, .gather true 0, .jobs [] [⟨0, 8, some 107, .done⟩], 1, 1, [⟨0, 8, some 107, .done⟩]⟩] = false := by
+  decide +kernel
+/-- … one in which evaluator 1 hands back a job of evaluator 0 as its own -/
+example : checkMTrace pM 2
+    [⟨0, .submit [7], .unit, 1, 0, []⟩,
+     ⟨1, .gather true 0, .jobs [⟨0, 7, some 107, .done⟩] [], 1, 1, [⟨0, 7, some 107, .done⟩]⟩] = false := by
+  decide +kernel
+/-- … and one in which a capped submit creates more jobs than the cap allows (counter 2 instead of 1) -/
+example : checkMTrace pM 1
+    [⟨0, .setMax 1, .unit, 0, 0, []⟩, ⟨0, .submit [7, 8], .spawnMax, 2, 0, []⟩] = false := by decide +kernel
+example : checkMTrace pM 1
+    [⟨0, .setMax 1, .unit, 0, 0, []⟩, ⟨0, .submit [7, 8], .spawnMax, 1, 0, []⟩] = true := by decide +kernel
 
 end DH.Evaluator
